@@ -17,7 +17,7 @@ RULE = ("one evaluation = one phone string (token vs independent HMAC-SHA1), one
 ASSUMPTIONS = ["the three token constants are frozen copies of the pinned tree (data/reg_constants.json), not a second origin",
                "text values are valid unicode (no lone surrogates); nothing is sent anywhere (preview mode, audit hook)",
                "hmac/urllib.parse/cryptography are trusted"]
-REQUIRED = ["two_env_tokens", "request_resends", "concurrent_token_rounds", "token_yields", "token_cases", "urlencode_cases", "encrypt_cases", "request_objects", "escaped_values"]
+REQUIRED = ["same_phone_other_cc", "two_env_tokens", "request_resends", "concurrent_token_rounds", "token_yields", "token_cases", "urlencode_cases", "encrypt_cases", "request_objects", "escaped_values"]
 
 DATA = os.path.join(os.path.dirname(os.path.dirname(os.path.dirname(os.path.abspath(__file__)))), "data")
 SAFE = set("ABCDEFGHIJKLMNOPQRSTUVWXYZabcdefghijklmnopqrstuvwxyz0123456789.")
@@ -179,6 +179,7 @@ def check_request_objects(acc, seed, n):
 
     WARequest.sendRequest = classmethod(fake_send)
     ephemerals = set()
+    prev_phone = [None, None]
     try:
         for i in range(n):
             r = gen.rng(seed, ID, "req/%d" % i)
@@ -187,6 +188,15 @@ def check_request_objects(acc, seed, n):
             cc = r.choice(["1", "49", "353", "7"])
             national = gen.s_from(r, gen.DIGITS, r.randint(4, 12))
             phone = cc + national
+            if i % 4 == 3 and prev_phone[0]:
+                # the same full number as the previous request under another country-code split (1 | 242555... vs 1242 | 555...)
+                phone = prev_phone[0]
+                cc = phone[:r.choice([1, 2, 3, 4])]
+                if cc == prev_phone[1]:
+                    cc = phone[:len(cc) % 4 + 1]
+                national = phone[len(cc):]
+                acc.count("same_phone_other_cc")
+            prev_phone[0], prev_phone[1] = phone, cc
             cfg = Config(phone=phone, cc=cc, mcc=r.choice(["000", "262", "1", "310"]), mnc=r.choice(["000", "01", "410"]),
                          sim_mcc=r.choice(["000", "262"]), sim_mnc=r.choice(["000", "7"]),
                          id=None if r.random() < 0.3 else gen.blob(r, 20),
